@@ -84,6 +84,15 @@ def check_case(case):
     a = libx.call('address', P2PKHBitcoinAddress, own)[1]
     if libx.call('verifymessage-own', VerifyMessage, a, msg, sig)[1] is not True:
         raise Violation('verify/own-false', 'VerifyMessage is not True for the signer\'s own address')
+    # the address given as plain text (what a user pastes): the signer's own text verifies; text that is another key's address,
+    # another chain's spelling of the same key, a one-character typo or not an address at all is simply not the signer -> False
+    other_chain = b58.check_encode(111, H.h160(secp.ser_pub(P, comp)))
+    typo = own[:-1] + ('2' if own[-1] != '2' else '3')
+    for tag, text_addr, want_ in (('own-text', own, True), ('other-chain-text', other_chain, False), ('typo-text', typo, False), ('empty-text', '', False),
+                                  ('garbage-text', 'not an address', False), ('twin-text', _addr(x, not comp), False)):
+        r_ = libx.call('verifymessage-' + tag, VerifyMessage, text_addr, msg, sig)[1]
+        if r_ is not want_:
+            raise Violation('verify/%s-%s' % (tag, str(r_).lower()), 'VerifyMessage(%r as plain text, ...) = %r' % (text_addr[:40], r_))
     # the same signature under other chain selections, in sequence: the signer's address OF THAT CHAIN verifies, the one of a
     # chain with another version byte does not (and nothing remembered from the previous selection changes that)
     try:
